@@ -672,10 +672,73 @@ def set_kernel_cases(ctx):
                            nontrivial=len({tuple(l) for l in lists}) > 1)
 
 
+# ----------------------------------------------------------------------------- overlay: every layout x every missing pattern
+def overlay_layout_cases(ctx):
+    """Frame.from_overlay whose FIRST container is built with every block layout of 3-4 columns and every pattern of missing cells in
+    its float/object columns, its labels ALREADY equal to the aligned labels (no reindex: the blocks reach fillna_by_values as built);
+    the later container has a distinct value per (row, column), so any shift between columns is visible.  The same inputs are also
+    given directly to TypeBlocks.fillna_by_values (kernel stratum)."""
+    import static_frame as sf
+    rng = ctx.rng
+    specs = [('fff', 2), ('iif', 2), ('iiif', 2), ('iifO', 2)]
+    if ctx.tier != 'quick':
+        specs += [('ffff', 1), ('fiif', 2), ('OiiO', 1), ('ffi', 2), ('UUf', 2)]
+    for pat, rows in specs:
+        na_cells = [(i, j) for j, k in enumerate(pat) if k in 'fO' for i in range(rows)]
+        index = list(range(rows))
+        columns = list('abcd')[:len(pat)]
+        masks = list(itertools.product((False, True), repeat=len(na_cells)))
+        for layout in zoo.layouts_for(dtypes_of(pat)):
+            for mask in masks:
+                missing = {c for c, m in zip(na_cells, mask) if m}
+                cols = []
+                for j, k in enumerate(pat):
+                    if k == 'i':
+                        a = np.array([10 * j + i + 1 for i in range(rows)], dtype='int64')
+                    elif k == 'f':
+                        a = np.array([np.nan if (i, j) in missing else 10 * j + i + 0.5 for i in range(rows)], dtype='float64')
+                    elif k == 'U':
+                        a = np.array([f'{j}{i}' for i in range(rows)], dtype='<U2')
+                    else:
+                        a = np.empty(rows, dtype=object)
+                        for i in range(rows):
+                            a[i] = None if (i, j) in missing else f's{j}{i}'
+                    cols.append(a)
+                first = zoo.frame_from_columns(cols, layout, index=index, columns=columns)
+                variant = rng.randrange(3)
+                if variant == 0:      # same labels, one float block: distinct value per cell
+                    later = [sf.Frame(np.array([[100.0 * (j + 1) + i for j in range(len(pat))] for i in range(rows)]), index=index, columns=columns)]
+                elif variant == 1:    # same labels, a column per dtype
+                    later = [zoo.frame_from_columns([np.array([100 * (j + 1) + i for i in range(rows)], dtype='int64') for j in range(len(pat))],
+                                                    tuple((1, False) for _ in pat), index=index, columns=columns)]
+                else:                 # two later containers, the first of them with holes and permuted columns
+                    perm = rng.sample(columns, len(columns))
+                    holes = np.array([[np.nan if rng.random() < 0.5 else 100.0 * (columns.index(c) + 1) + i for c in perm] for i in range(rows)])
+                    later = [sf.Frame(holes, index=index, columns=perm),
+                             sf.Frame(np.array([[900.0 + 10 * j + i for j in range(len(pat))] for i in range(rows)]), index=index, columns=columns)]
+                ctx.count('overlay-layouts:' + pat)
+                yield overlay_case(ctx, 'api:frame.from_overlay-all-layouts', [first] + later, True, None, None)
+                # kernel: the block walk itself
+                vals = [later[0][c].values for c in columns]
+                try:
+                    out = first._blocks.fillna_by_values(vals)
+                    obs = lit.lst([block_lit(b) for b in out._blocks])
+                    obs_desc = [{'dtype': str(b.dtype), 'ndim': b.ndim, 'values': b.tolist()} for b in out._blocks]
+                except Exception as e:  # noqa
+                    obs, obs_desc = '[]', lit.err_class(e)
+                t_lit = lit.lst([block_lit(b) for b in first._blocks._blocks])
+                v_lit = lit.lst([f'({lit.dtype(v.dtype)}, {col_vals(v)})' for v in vals])
+                yield Case('kernel:fillna_by_values',
+                           {'call': 'TypeBlocks.fillna_by_values', 'blocks': frame_desc(first)['blocks'], 'values': [v.tolist() for v in vals], 'observed': obs_desc},
+                           m=f'MV_fillna_ok {t_lit} {v_lit} {obs}', s=f'SV_fillna_ok {t_lit} {v_lit} {obs}',
+                           tags={'kernel': 'fillna_by_values'}, nontrivial=bool(missing))
+
+
 def cases(ctx):
     yield from witness_cases(ctx)
     yield from set_kernel_cases(ctx)
     yield from layout_cases(ctx)
+    yield from overlay_layout_cases(ctx)
     yield from random_concat_cases(ctx)
     yield from series_input_cases(ctx)
     yield from series_concat_cases(ctx)
